@@ -367,7 +367,7 @@ var cConc = vt.New("C11", "concurrent")
 
 func TestConcurrent(t *testing.T) {
 	cConc.ReplayRepeat = 300
-	vt.Run(t, cConc, vt.N(12000, 600000), genConc, runConc(cConc))
+	vt.Run(t, cConc, vt.N(10000, 600000), genConc, runConc(cConc))
 }
 
 // ---------------------------------------------------------------------------
